@@ -26,6 +26,17 @@ Line-protocol driver of the C08 model (header `spacebounds …`; the header's `s
   vs <uniform|gaussian|obstacle|bridge|maxclear|minclear> <s|n> <attempts> <improve> <clearance> <nd> <dim>
      <ns> <sample>*ns <na> (<valid:0|1> <clearance>)*na
       -> `ret=<b> st=<x,…> ns=<sampler calls> na=<isValid calls> calls=<U|N|G…> log=<x,…:v;…>` (oldest first)
+  vsa <name> <s|n> <via:d|p> <attempts> <improve> <clearance> <nd> <dim> <lo>*dim <hi>*dim <stddev|-> <dist> <near>*dim
+      <ns> <sample>*ns <na> (<valid:0|1> <clearance>)*na
+      the same on R^dim with the given bounds, with the ARGUMENTS of every inner-sampler call: `-` = the constructor's
+      default `stddev_ = getMaximumExtent() * 0.1` (`defaultStdDev`); `via` is for the harness only (direct setters or ParamSet)
+      -> `ret= st= ns= na= calls=<U|N:<near>@<distance>|G:<mean>@<sigma>>;… log=…`
+  svn <1|2> <name> <via> <attempts> <improve> <clearance> <nd> <alias:0|1> <dim> <lo>*dim <hi>*dim <stddev|-> <dist>
+      <near>*dim <ns> <sample>*ns <na> (<valid> <clearance>)*na
+      SpaceInformation::searchValidNearby: overload 1 `(sampler, state, near, distance)` with the named valid-state sampler,
+      overload 2 `(state, near, distance, attempts)` (name must be `uniform`); `near` may be out of bounds (enforced);
+      `alias` (state == near) is for the harness only
+      -> as `vsa`
 -/
 namespace OmplModel.Driver.SpaceBoundsDrv
 open OmplModel OmplModel.Driver OmplModel.SpaceBounds
@@ -59,18 +70,24 @@ def pCounted (r : List String) : Option (List Float × List String) := do
 
 def getD (xs : Array Float) (k : Nat) : Float := xs.getD k 0.0
 
-/-- R^n interpolate as coded: `from + (to - from) * t`, `t = (double)j / (double)nd` -/
-def rnInterp (a b : List Float) (j nd : Nat) : List Float :=
-  let t := Float.ofNat j / Float.ofNat nd
-  List.zipWith (fun x y => x + (y - x) * t) a b
+/-- R^n interpolate as coded (the model's `rvInterp`: `from + (to - from) * t`), `t = (double)j / (double)nd` -/
+def rnInterp (a b : List Float) (j nd : Nat) : List Float := rvInterp (Float.ofNat j / Float.ofNat nd) a b
 
 /-- `interpolate(endpoint, state, 0.5, state)` -/
-def rnMid (e x : List Float) : List Float := List.zipWith (fun a b => a + (b - a) * 0.5) e x
+def rnMid (e x : List Float) : List Float := rvInterp 0.5 e x
 
 def showVec (xs : List Float) : String := ",".intercalate (xs.map floatBits)
 
-def showCall : Call → String
-  | .uniform => "U" | .near => "N" | .gauss => "G"
+abbrev VCall := Call (List Float) Float
+
+def showCall : VCall → String
+  | .uniform => "U" | .near _ _ => "N" | .gauss _ _ => "G"
+
+/-- a call with its arguments: `U`, `N:<near>@<distance>`, `G:<mean>@<sigma>` -/
+def showCallA : VCall → String
+  | .uniform => "U"
+  | .near c d => s!"N:{showVec c}@{floatBits d}"
+  | .gauss m sd => s!"G:{showVec m}@{floatBits sd}"
 
 def pStates (dim : Nat) : Nat → P (List (List Float))
   | 0, r => some ([], r)
@@ -87,24 +104,78 @@ def pAnswers : Nat → P (List (Bool × Float))
     let (xs, r) ← pAnswers n r
     if v > 1 then none else pure ((v == 1, c) :: xs, r)
 
-def runVs (name mode : String) (attempts improve : Nat) (clr : Float) (nd : Nat)
-    (samples : Array (List Float)) (answers : Array (Bool × Float)) : Option (VRes (List Float) Float) :=
-  let o : Orc (List Float) Float := ⟨fun k => samples.getD k [], fun k => answers.getD k (false, 0.0)⟩
-  let s0 : OS (List Float) Float := {}
+abbrev VR := VRes (List Float) Float Float
+abbrev VOS := OS (List Float) Float Float
+
+/-- one valid-state sampler call: `c` = the first-loop call, `sd` = sigma of the Gaussian / BridgeTest inner draw -/
+def vssCall (o : Orc (List Float) Float Float) (name : String) (attempts improve : Nat) (clr : Float) (nd : Nat)
+    (c : VCall) (sd : Float) (s : VOS) : Option VR :=
   let n := attempts - 1
   let lt : Float → Float → Bool := fun a b => a < b
-  match mode with
-  | "s" | "n" =>
-    let c : Call := if mode == "s" then .uniform else .near
-    match name with
-    | "uniform" => some (uniformV o c n s0)
-    | "gaussian" => some (gaussV o c n s0)
-    | "obstacle" => some (obstacleV o (fun _ _ => nd) rnInterp c n s0)
-    | "bridge" => some (bridgeV o rnMid c n s0)
-    | "maxclear" => some (maxClearV o lt c n improve s0)
-    | "minclear" => some (minClearV o lt clr c n s0)
-    | _ => none
+  match name with
+  | "uniform" => some (uniformV o c n s)
+  | "gaussian" => some (gaussV o c sd n s)
+  | "obstacle" => some (obstacleV o (fun _ _ => nd) rnInterp c n s)
+  | "bridge" => some (bridgeV o rnMid c sd n s)
+  | "maxclear" => some (maxClearV o lt c n improve s)
+  | "minclear" => some (minClearV o lt clr c n s)
   | _ => none
+
+def mkOrc (samples : Array (List Float)) (answers : Array (Bool × Float)) : Orc (List Float) Float Float :=
+  ⟨fun k _ => samples.getD k [], fun k => answers.getD k (false, 0.0)⟩
+
+/-- `sample` (`sd` = stddev_) or `sampleNear(state, near, dist)` (`sd` = dist, as coded) -/
+def runVs (name mode : String) (attempts improve : Nat) (clr : Float) (nd : Nat) (stddev dist : Float) (near : List Float)
+    (samples : Array (List Float)) (answers : Array (Bool × Float)) : Option VR :=
+  let o := mkOrc samples answers
+  match mode with
+  | "s" => vssCall o name attempts improve clr nd .uniform stddev {}
+  | "n" => vssCall o name attempts improve clr nd (.near near dist) dist {}
+  | _ => none
+
+def knownVss (name : String) : Bool :=
+  name == "uniform" || name == "gaussian" || name == "obstacle" || name == "bridge" || name == "maxclear" ||
+    name == "minclear"
+
+/-- SpaceInformation::searchValidNearby on R^dim with bounds `lo`, `hi` -/
+def runSvn (overload : Nat) (name : String) (attempts improve : Nat) (clr : Float) (nd : Nat) (lo hi : List Float)
+    (dist : Float) (near : List Float) (samples : Array (List Float)) (answers : Array (Bool × Float)) : Option VR :=
+  let o := mkOrc samples answers
+  let sat : List Float → Bool := rvSat lo hi
+  let enf : List Float → List Float := rvEnforce lo hi
+  match overload with
+  | 1 =>
+    if !knownVss name then none else
+    -- `sampler->sampleNear(state, temp, distance)`: the Gaussian / BridgeTest inner sigma is the distance
+    let vss := fun (c : List Float) (d : Float) (s : VOS) =>
+      (vssCall o name attempts improve clr nd (.near c d) d s).getD ⟨false, c, s⟩
+    some (searchNearbyV o sat enf vss near dist {})
+  | 2 => if name != "uniform" then none else some (searchNearbyAttempts o sat enf near dist attempts {})
+  | _ => none
+
+def showVR (res : VR) (withArgs : Bool) : String :=
+  let calls :=
+    if withArgs then ";".intercalate (res.os.calls.reverse.map showCallA)
+    else String.join (res.os.calls.reverse.map showCall)
+  let log := ";".intercalate (res.os.log.reverse.map (fun e => showVec e.1 ++ ":" ++ b01 e.2.1))
+  s!"ret={b01 res.ok} st={showVec res.st} ns={res.os.si} na={res.os.ai} calls={calls} log={log}"
+
+/-- the common tail of `vsa` / `svn`: `<dim> <lo>*dim <hi>*dim <stddev|-> <dist> <near>*dim <ns> … <na> …` -/
+def pVTail (r : List String) :
+    Option (List Float × List Float × Float × Float × List Float × Array (List Float) × Array (Bool × Float)) := do
+  let (dim, r) ← pNat r
+  let (lo, r) ← pFloats dim r
+  let (hi, r) ← pFloats dim r
+  let (sd, r) ← match r with
+    | "-" :: r => some (defaultStdDev lo hi, r)
+    | r => pFloat r
+  let (dist, r) ← pFloat r
+  let (near, r) ← pFloats dim r
+  let (ns, r) ← pNat r
+  let (samples, r) ← pStates dim ns r
+  let (na, r) ← pNat r
+  let (answers, r) ← pAnswers na r
+  if r.isEmpty && dim ≥ 1 then pure (lo, hi, sd, dist, near, samples.toArray, answers.toArray) else none
 
 def step (st : St) (ts : List String) : St × String :=
   match ts with
@@ -292,15 +363,46 @@ def step (st : St) (ts : List String) : St × String :=
       let (samples, r) ← pStates dim ns r
       let (na, r) ← pNat r
       let (answers, r) ← pAnswers na r
-      if r.isEmpty && nd ≥ 1 then pure (attempts, improve, clr, nd, samples.toArray, answers.toArray) else none) with
-    | some (attempts, improve, clr, nd, samples, answers) =>
-      match runVs name mode attempts improve clr nd samples answers with
+      if r.isEmpty && nd ≥ 1 then pure (attempts, improve, clr, nd, dim, samples.toArray, answers.toArray) else none) with
+    | some (attempts, improve, clr, nd, dim, samples, answers) =>
+      -- legacy form: bounds ±1e6, default stddev_, `sampleNear(state, 0, 1.0)`; the arguments are not printed
+      let lo := List.replicate dim (-1000000.0)
+      let hi := List.replicate dim 1000000.0
+      match runVs name mode attempts improve clr nd (defaultStdDev lo hi) 1.0 (List.replicate dim 0.0) samples answers with
       | some res =>
-        if res.os.si > samples.size || res.os.ai > answers.size then (st, "short")
-        else
-          let calls := String.join (res.os.calls.reverse.map showCall)
-          let log := ";".intercalate (res.os.log.reverse.map (fun e => showVec e.1 ++ ":" ++ b01 e.2.1))
-          (st, s!"ret={b01 res.ok} st={showVec res.st} ns={res.os.si} na={res.os.ai} calls={calls} log={log}")
+        if res.os.si > samples.size || res.os.ai > answers.size then (st, "short") else (st, showVR res false)
+      | none => (st, "bad-op")
+    | none => (st, "bad-op")
+  | "vsa" :: name :: mode :: via :: r =>
+    match (do
+      let (attempts, r) ← pNat r
+      let (improve, r) ← pNat r
+      let (clr, r) ← pFloat r
+      let (nd, r) ← pNat r
+      let t ← pVTail r
+      if nd ≥ 1 && (via == "d" || via == "p") then pure (attempts, improve, clr, nd, t) else none) with
+    | some (attempts, improve, clr, nd, (_, _, sd, dist, near, samples, answers)) =>
+      match runVs name mode attempts improve clr nd sd dist near samples answers with
+      | some res =>
+        if res.os.si > samples.size || res.os.ai > answers.size then (st, "short") else (st, showVR res true)
+      | none => (st, "bad-op")
+    | none => (st, "bad-op")
+  | "svn" :: ov :: name :: via :: r =>
+    match (do
+      let (attempts, r) ← pNat r
+      let (improve, r) ← pNat r
+      let (clr, r) ← pFloat r
+      let (nd, r) ← pNat r
+      let (alias, r) ← pNat r
+      let t ← pVTail r
+      let ov ← parseNat? ov
+      if nd ≥ 1 && alias ≤ 1 && (via == "d" || via == "p") then pure (ov, attempts, improve, clr, nd, t) else none) with
+    | some (ov, attempts, improve, clr, nd, (lo, hi, _, dist, near, samples, answers)) =>
+      -- inverted bounds: RealVectorStateSpace::setBounds refuses them (the harness prints `skip ompl-exception`)
+      if (List.zip lo hi).any (fun p => p.2 < p.1) then (st, "skip ompl-exception") else
+      match runSvn ov name attempts improve clr nd lo hi dist near samples answers with
+      | some res =>
+        if res.os.si > samples.size || res.os.ai > answers.size then (st, "short") else (st, showVR res true)
       | none => (st, "bad-op")
     | none => (st, "bad-op")
   | _ => (st, "bad-op")
